@@ -761,6 +761,31 @@ class Body:
                 stack.append(k)
         return seen
 
+    def swallowed_errors(self, blocks, targets, local_pred):
+        """Path-sensitive: blocks of `blocks` at which some local satisfying local_pred is known to hold an `Err`, and
+        from which a block of `targets` can nevertheless be reached.  [(block, local)]"""
+        if not (self.ps and self._x is not None):
+            return None
+        order, adj = self._x["order"], self._x["adj"]
+        starts = {}
+        for i, (b0, st) in enumerate(order):
+            if b0 not in blocks:
+                continue
+            for (l, v) in st:
+                if v == "Err" and local_pred(l):
+                    starts.setdefault(i, l)
+        out = []
+        seen_blocks = set()
+        for i, l in sorted(starts.items()):
+            b0 = order[i][0]
+            if b0 in seen_blocks:
+                continue
+            cl = self._x_closure([i])
+            if any(order[k][0] in targets for k in cl):
+                seen_blocks.add(b0)
+                out.append((b0, l))
+        return out
+
     def continuing_exits(self, loop):
         """Edges leaving `loop`, other than its exhaustion edges, that are not early `return Err(..)`s.
         An exit is an early error return iff on every path from its target the return place of the
@@ -779,7 +804,7 @@ class Body:
                     out.append((b, j))
         return out
 
-    def _is_err_return_path(self, src, start, loop, j=None, root=False, removed_edges=()):
+    def _is_err_return_path(self, src, start, loop, j=None, root=False, removed_edges=(), stop_at_next=True):
         """root=True: judge against the return place of the region's root function, whatever inlined instance src is in."""
         ret = 0 if root else self.blocks[src].get("ret_local", 0)
         inst = None if root else self.blocks[src].get("inst", "")
@@ -818,7 +843,7 @@ class Body:
                 n = callee_name(t)
                 if t["dst"]["l"] == ret and not t["dst"]["p"]:
                     assigned = "Err" if n == "std::ops::FromResidual::from_residual" else "other"
-                elif n == "std::iter::Iterator::next":
+                elif n == "std::iter::Iterator::next" and stop_at_next:
                     return False
             if assigned == "other" and xg is not None:
                 # the value assigned is not syntactically an Err, but on this path it is known to be one (e.g. the Err
